@@ -104,3 +104,48 @@ def run(ctx):
         if bad:
             ctx.violate(case, "inferred types differ from the fully annotated graph (graph edited after construction)",
                         {"site": "infer_types", "what": "types", "edit": how}, observed=dict(list(bad.items())[:4]))
+
+    # shapes whose inferred entries outgrow the integer dtype the *Input* shape happens to be stored in (int8 / uint8 /
+    # int16): restored annotations are the true numbers whatever width the seed had
+    for i in range(ctx.n(40, 200)):
+        dt = rng.choice(["int8", "uint8", "int8", "int16"])
+        lim = np.iinfo(dt).max
+        two_d = rng.random() < 0.6
+        cin = rng.randrange(1, 4)
+        sp = [rng.randrange(6, 12) for _ in range(2 if two_d else 1)]
+        cout = rng.randrange(lim + 2, lim + 200) if dt != "int16" else rng.randrange(2, 5)
+        k = [rng.randrange(1, 4) for _ in sp]
+        w = np.zeros([cout, cin] + k, dtype="float32")
+        conv = nir.Conv2d(None, w, 1, 0, 1, 1, np.zeros(cout)) if two_d else nir.Conv1d(None, w, 1, 0, 1, 1, np.zeros(cout))
+        out_sp = [n - kk + 1 for n, kk in zip(sp, k)]
+        conv_out = [cout] + out_sp
+        nodes = {"in": nir.Input(np.array([cin] + sp, dtype=dt)), "conv": conv}
+        edges = [("in", "conv")]
+        want = {"in": ([cin] + sp, [cin] + sp), "conv": ([cin] + sp, conv_out)}
+        last, cur = "conv", conv_out
+        if rng.random() < 0.7:
+            nodes["flat"] = nir.Flatten(None, 0, -1)
+            flat = [int(np.prod(cur))]
+            want["flat"] = (cur, flat); edges.append((last, "flat")); last, cur = "flat", flat
+        nodes["out"] = nir.Output(None)
+        edges.append((last, "out")); want["out"] = (cur, cur)
+        rng.shuffle(edges)
+        case = {"op": "narrow_seed_dtype", "input_dtype": dt, "input_shape": [cin] + sp, "weight_shape": list(w.shape),
+                "nodes": list(nodes), "edges": [list(e) for e in edges]}
+        ctx.case(case); ctx.count("narrow_seed_dtype")
+        try:
+            graph = nir.NIRGraph(nodes=nodes, edges=edges)
+            with quiet():
+                graph.infer_types()
+                ok = graph._check_types()
+        except Exception as e:  # noqa
+            ctx.violate(case, "infer_types / the type check raised on a consistent graph whose Input shape is stored in a "
+                        "narrow integer dtype", {"site": "infer_types", "what": "raised", "edit": "narrow-seed"},
+                        observed=f"{type(e).__name__}: {e}")
+            continue
+        got = types_of(graph)
+        bad = {n: {"got": list(got.get(n, (None, None))), "want": [ti, to]} for n, (ti, to) in want.items()
+               if got.get(n) != ({"input": ti}, {"output": to})}
+        if bad:
+            ctx.violate(case, "inferred types differ from the fully annotated graph (Input shape stored in a narrow dtype)",
+                        {"site": "infer_types", "what": "types", "edit": "narrow-seed"}, observed=dict(list(bad.items())[:4]))
